@@ -127,6 +127,7 @@ type Interceptor struct {
 	lock            sync.Mutex
 	RecorderFactory RecorderFactory
 	recorders       map[uint32]Recorder
+	bound           map[uint32]int // number of streams (local and remote) currently bound per SSRC
 	wg              sync.WaitGroup
 	loggerFactory   logging.LoggerFactory
 }
@@ -147,6 +148,10 @@ func (r *Interceptor) Get(ssrc uint32) *Stats {
 func (r *Interceptor) getRecorder(ssrc uint32, clockRate float64) Recorder {
 	r.lock.Lock()
 	defer r.lock.Unlock()
+	if r.bound == nil {
+		r.bound = map[uint32]int{}
+	}
+	r.bound[ssrc]++
 	if rec, ok := r.recorders[ssrc]; ok {
 		return rec
 	}
@@ -159,6 +164,31 @@ func (r *Interceptor) getRecorder(ssrc uint32, clockRate float64) Recorder {
 	r.recorders[ssrc] = rec
 
 	return rec
+}
+
+// UnbindLocalStream is called when the Stream is removed. The recorder of the SSRC is released with its last stream.
+func (r *Interceptor) UnbindLocalStream(info *interceptor.StreamInfo) {
+	r.releaseRecorder(info.SSRC)
+}
+
+// UnbindRemoteStream is called when the Stream is removed. The recorder of the SSRC is released with its last stream.
+func (r *Interceptor) UnbindRemoteStream(info *interceptor.StreamInfo) {
+	r.releaseRecorder(info.SSRC)
+}
+
+func (r *Interceptor) releaseRecorder(ssrc uint32) {
+	r.lock.Lock()
+	defer r.lock.Unlock()
+	if r.bound[ssrc] > 1 {
+		r.bound[ssrc]--
+
+		return
+	}
+	delete(r.bound, ssrc)
+	if rec, ok := r.recorders[ssrc]; ok {
+		rec.Stop()
+		delete(r.recorders, ssrc)
+	}
 }
 
 // Close closes the interceptor and associated stats recorders.
